@@ -103,16 +103,16 @@ pub fn c14_exp2_range() {
 #[cfg_attr(kani, kani::proof)]
 #[cfg_attr(kani, kani::unwind(16))]
 pub fn c14_expm1_zero() {
-    let r = tf(0.0, 0.0).exp_m1();
+    let r = gtf(0.0, 0.0).exp_m1();
     assert!(r.hi() == 0.0 && r.lo() == 0.0);
-    let r = tf(-0.0, 0.0).exp_m1();
+    let r = gtf(-0.0, 0.0).exp_m1();
     assert!(r.hi() == 0.0 && r.lo() == 0.0);
     reached();
 }
 
 /// exp2(k) == (2^k, 0) exactly, ground on the real code (polynomial, nine squarings, mul_pow2)
 pub fn exp2_int(k: i32) {
-    let r = tf(k as f64, 0.0).exp2();
+    let r = gtf(k as f64, 0.0).exp2();
     let want = if k >= -1022 { f64::from_bits(((k + 1023) as u64) << 52) } else { 0.0 };
     assert!(r.hi() == want && r.lo() == 0.0);
     reached();
